@@ -494,26 +494,32 @@ def unit_small():
         and [id(x) for x in ff(TPM2B_DIGEST, d1)] == [id(d1)] and [id(x) for x in ff(TPMS_AUTH_COMMAND, sess)] == [id(sess)], "subclasses TPM2B_NONCE / TPM2B_AUTH of TPM2B_DIGEST must not be reported for TPM2B_DIGEST")
     # bytes_from_files: every byte of every file, in order, nothing dropped (all 256 values as last byte, text-mode wrapper)
     class F:
+        """file object: read() / read(n) from the current position, b"" at end of file"""
         def __init__(self, data, mode="rb", inner=None):
-            self.data, self.mode, self.buffer, self.done = data, mode, inner, False
-        def read(self):
-            if self.done:
-                return b""
-            self.done = True
-            return self.data
+            self.data, self.mode, self.buffer, self.pos = data, mode, inner, 0
+        def read(self, n=-1):
+            end = len(self.data) if n is None or n < 0 else min(len(self.data), self.pos + n)
+            chunk = self.data[self.pos:end]
+            self.pos = end
+            return chunk
+
+    def feed(files):
+        # the real function on concrete file objects, run by CPython itself
+        try:
+            return bytes(IO.bytes_from_files(files))
+        except Exception as e:  # noqa
+            return f"{type(e).__name__}: {e}".encode()
     bad = []
     for last in range(256):
         data = bytes([0x80, 0x01, 0x0A, last])
         f1, f2 = F(data), F(b"", mode="r", inner=F(bytes([last, 0x0D])))
-        ctx = Ctx()
-        I = Interp(ctx)
-        out = run_sync(I.iterate_all(run_sync(I.call(IO.bytes_from_files, ((f1, f2),), {}))))
+        out = feed((f1, f2))
         if bytes(out) != data + bytes([last, 0x0D]):
             bad.append(f"{data.hex()}+{last:02x}0d -> {bytes(out).hex()}")
-    for files, want in (((F(b"ab"), F(b""), F(b"cd")), b"abcd"), ((F(b""), F(b"xy")), b"xy"), ((F(b"q"),), b"q"), ((), b"")):
-        ctx = Ctx()
-        I = Interp(ctx)
-        out = run_sync(I.iterate_all(run_sync(I.call(IO.bytes_from_files, (files,), {}))))
+    big = bytes(range(256)) * 40  # longer than any plausible read chunk
+    for files, want in (((F(b"ab"), F(b""), F(b"cd")), b"abcd"), ((F(b""), F(b"xy")), b"xy"), ((F(b"q"),), b"q"), ((), b""), ((F(b"one"), F(b"two"), F(b"three")), b"onetwothree"),
+                        ((F(big), F(b"tail")), big + b"tail"), ((F(b"head"), F(big)), b"head" + big)):
+        out = feed(files)
         if bytes(out) != want:
             bad.append(f"{len(files)} files with an empty one -> {bytes(out)!r} expected {want!r}")
     _ob(u, "C19/SMALL/bytes_from_files-yields-every-byte-of-every-file-in-order", not bad, "; ".join(bad[:3]), site="io/__init__.py:bytes_from_files")
